@@ -233,41 +233,42 @@ Theorem mtu_floor : forall st vs c a f m st' vs' echo,
 Proof. exact face_update_mtu. Qed.
 Print Assumptions mtu_floor.
 
-(* ---- bad parameters are answered with a 4xx status (and, by mgmt_reject_pure, change nothing) ---- *)
+(* ---- bad parameters are answered with a status of the 4xx class - which code is not constrained - and, by mgmt_reject_pure,
+   change nothing ---- *)
 Theorem mgmt_refuses_missing_params : forall rib_to_fib face_cleanup st vs c, no_params c ->
-  refused (rib_register rib_to_fib st vs c) st vs c 400 /\ refused (rib_unregister rib_to_fib st vs c) st vs c 400 /\
-  refused (fib_add st vs c) st vs c 400 /\ refused (fib_remove_cmd st vs c) st vs c 400 /\
-  refused (strat_set_cmd st vs c) st vs c 400 /\ refused (strat_unset_cmd st vs c) st vs c 400 /\
-  refused (cs_config st vs c) st vs c 400 /\ refused (face_create st vs c) st vs c 400 /\
-  refused (face_update st vs c) st vs c 400 /\ refused (face_destroy face_cleanup st vs c) st vs c 400.
+  refused (rib_register rib_to_fib st vs c) st vs c /\ refused (rib_unregister rib_to_fib st vs c) st vs c /\
+  refused (fib_add st vs c) st vs c /\ refused (fib_remove_cmd st vs c) st vs c /\
+  refused (strat_set_cmd st vs c) st vs c /\ refused (strat_unset_cmd st vs c) st vs c /\
+  refused (cs_config st vs c) st vs c /\ refused (face_create st vs c) st vs c /\
+  refused (face_update st vs c) st vs c /\ refused (face_destroy face_cleanup st vs c) st vs c.
 Proof. exact missing_params_refused. Qed.
 Print Assumptions mgmt_refuses_missing_params.
 
 Theorem mgmt_refuses_unknown_face : forall rib_to_fib st vs c a nm, has_params c a -> a_name a = Some nm ->
   explicit_face a = true -> face_exists st (acts_on c a) = false ->
-  refused (rib_register rib_to_fib st vs c) st vs c 410 /\ refused (fib_add st vs c) st vs c 410.
+  refused (rib_register rib_to_fib st vs c) st vs c /\ refused (fib_add st vs c) st vs c.
 Proof. exact unknown_face_refused. Qed.
 Print Assumptions mgmt_refuses_unknown_face.
 
 Theorem mgmt_refuses_strategy_without_component : forall st vs c a nm sn, has_params c a -> a_name a = Some nm ->
   a_strategy a = Some sn -> (is_prefix strategy_prefix sn = false \/ (length sn <= length strategy_prefix)%nat) ->
-  refused (strat_set_cmd st vs c) st vs c 404.
+  refused (strat_set_cmd st vs c) st vs c.
 Proof. exact strategy_without_component_refused. Qed.
 Print Assumptions mgmt_refuses_strategy_without_component.
 
 Theorem mgmt_refuses_small_mtu : forall st vs c a f m, has_params c a -> face_get (s_faces st) (acts_on c a) = Some f ->
   (f_rscheme f =? sch_null) || (f_rscheme f =? sch_internal) = false ->
   a_mtu a = Some m -> m < k_FaceModule_update_min_mtu ->
-  refused (face_update st vs c) st vs c 409.
+  refused (face_update st vs c) st vs c.
 Proof. exact small_mtu_refused. Qed.
 Print Assumptions mgmt_refuses_small_mtu.
 
 Theorem mgmt_refuses_out_of_range : forall rib_to_fib st vs c a,
   has_params c a ->
   (forall cap, isSome (a_flags a) = isSome (a_mask a) -> a_capacity a = Some cap -> k_ContentStoreModule_config_max_capacity < cap ->
-     refused (cs_config st vs c) st vs c 400) /\
+     refused (cs_config st vs c) st vs c) /\
   (forall nm e, a_name a = Some nm -> explicit_face a && negb (face_exists st (acts_on c a)) = false ->
-     a_exp a = Some e -> k_RIBModule_register_max_expiration < e -> refused (rib_register rib_to_fib st vs c) st vs c 400).
+     a_exp a = Some e -> k_RIBModule_register_max_expiration < e -> refused (rib_register rib_to_fib st vs c) st vs c).
 Proof.
   exact (fun rtf st vs c a Hp => conj (fun cap H1 H2 H3 => huge_capacity_refused st vs c a cap Hp H1 H2 H3)
                                       (fun nm e H1 H2 H3 H4 => huge_expiration_refused rtf st vs c a nm e Hp H1 H2 H3 H4)).
